@@ -119,12 +119,16 @@ def run(tier: str, seed: int) -> int:
             out = core.run_driver('c11_driver.py', args, env=env, timeout=3000)
             return name, json.loads(out.strip().splitlines()[-1])
         stats = dict(pool.map(one, jobs))
-        if stats['funcs']['rle_family'] != fam:
+        crashed = sorted(k for k, v in stats.items() if v.get('crashed'))
+        cov['driver_crashes'] = crashed
+        if crashed:
+            pass    # reported through the crash records below; the coverage handshakes cannot hold
+        elif stats['funcs']['rle_family'] != fam:
             raise core.MachineryError(f'coverage handshake: driver ran {stats["funcs"]["rle_family"]} run patterns, the spec has {fam}')
-        if stats['funcs']['finder_edges'] != len(edges):
+        if not crashed and stats['funcs']['finder_edges'] != len(edges):
             raise core.MachineryError('coverage handshake: not every edge of the table machine was replayed')
         need = len(worlds) if tier == 'thorough' else len(worlds) // 2 - parts
-        if sum(stats[f'graph{n}']['worlds'] for n in range(parts)) < need:
+        if not crashed and sum(stats[f'graph{n}']['worlds'] for n in range(parts)) < need:
             raise core.MachineryError('coverage handshake: not every enumerated world was replayed')
         cov['driver_stats'] = {k: v for k, v in stats.items() if not k.startswith('graph')}
         cov['worlds_replayed'] = sum(stats[f'graph{n}']['worlds'] for n in range(parts))
@@ -133,8 +137,15 @@ def run(tier: str, seed: int) -> int:
         graph_all = work.path('graph.ndjson')
         with open(graph_all, 'w') as f:
             for n in range(parts):
-                f.write(work.path(f'graph{n}.ndjson').read_text())
-        files = [work.path(x + '.ndjson') for x in ('funcs', 'vis', 'props', 'fits', 'transplant')] + [graph_all]
+                for cand in (work.path(f'graph{n}.ndjson'), work.path(f'graph{n}.ndjson.crash')):
+                    if cand.exists():
+                        f.write(cand.read_text())
+        files = []
+        for x in ('funcs', 'vis', 'props', 'fits', 'transplant'):
+            for cand in (work.path(x + '.ndjson'), work.path(x + '.ndjson.crash')):
+                if cand.exists() and cand.stat().st_size:
+                    files.append(cand)
+        files.append(graph_all)
         allm = []
         total = 0
         kinds: dict = {}
@@ -155,7 +166,7 @@ def run(tier: str, seed: int) -> int:
             cov['states'] += st['states']
             cov['transitions'] += st['transitions']
         for k in KINDS:
-            if not kinds.get(k):
+            if not kinds.get(k) and not crashed:
                 raise core.MachineryError(f'no record of kind {k}')
         marks.append(('validate', round(time.time() - t0, 1)))
         for cfg, fut in mc_jobs.items():
